@@ -64,6 +64,7 @@ const (
 	effElse
 	effEnd
 	effImport
+	effNeg // renders a negative number: the body starts with '-' but "{{-7" is no trim marker (that needs "{{- ")
 )
 
 type seg struct {
@@ -85,7 +86,7 @@ func (s seg) src(d delimCfg, tight bool) string {
 	}
 	b := s.Body
 	pre, post := " ", " "
-	if tight {
+	if tight || s.Eff == effNeg {
 		pre, post = "", ""
 	}
 	if s.LT {
@@ -293,7 +294,7 @@ func c03expect(segs []seg) string {
 				i++
 			default:
 				switch s.Eff {
-				case effMark:
+				case effMark, effNeg:
 					if emit {
 						b.WriteString(s.Mark)
 					}
@@ -353,6 +354,10 @@ func (g *c03gen) act(eff actEffect, lt, rt bool) seg {
 		g.nm++
 		s.Mark = fmt.Sprintf("m%dm", g.nm)
 		s.Body = `"` + s.Mark + `"`
+	case effNeg:
+		g.nm++
+		s.Mark = fmt.Sprintf("-%d", 1+g.nm%9)
+		s.Body = s.Mark
 	case effNone:
 		g.nm++
 		s.Body = fmt.Sprintf("v%d := %d", g.nm, g.nm)
@@ -385,8 +390,11 @@ func (g *c03gen) genList(depth, n int) {
 			g.add(seg{Kind: segComment, Text: c03genComment(g.r, g.d)})
 		case k < 8 || depth >= 3:
 			eff := effMark
-			if g.r.Intn(4) == 0 {
+			switch g.r.Intn(6) {
+			case 0:
 				eff = effNone
+			case 1:
+				eff = effNeg
 			}
 			g.add(g.act(eff, g.r.Intn(2) == 0, g.r.Intn(2) == 0))
 		default:
@@ -414,11 +422,14 @@ func (g *c03gen) shape(k int) seg {
 	case 3:
 		return seg{Kind: segComment, Text: c03genComment(g.r, g.d)}
 	}
+	if k == 8 {
+		return g.act(effNeg, false, false)
+	}
 	k -= 4
 	return g.act(effMark, k&1 != 0, k&2 != 0)
 }
 
-const c03shapes = 8
+const c03shapes = 9
 
 func c03cases(tier string) int {
 	if tier == "thorough" {
@@ -567,7 +578,7 @@ func init() {
 		ID:        "C03",
 		Technique: "segment-model output monitor over generated templates (exhaustive 3-segment windows x delimiter configs, then random)",
 		Rule: "each case is a template built from a list of segments Text|Comment|Action(trim-left,trim-right) (nested if/range/else/end, optional leading import clauses) printed in one of 12 delimiter configurations; " +
-			"all 512 ordered triples of 8 segment shapes are enumerated per configuration, then random longer lists; a case is kept only if an independent leftmost-opener scanner recovers exactly the intended segmentation; " +
+			"all 729 ordered triples of 9 segment shapes (incl. an action whose body starts with '-') are enumerated per configuration, then random longer lists; a case is kept only if an independent leftmost-opener scanner recovers exactly the intended segmentation; " +
 			"oracle: byte-exact comparison with the segment model (text verbatim, trim markers strip the adjacent [ \\t\\r\\n] run only, comments vanish, whitespace-only text next to leading imports dropped) under the default HTML escaper; " +
 			"non-trivial = some text with edge whitespace is adjacent to a comment or a trimming action; distinct by (delimiter config, sequence of segment shapes)",
 		Assumptions: []string{"actions used in the generated templates (string literal, :=, if true/false, range ints, import) behave as in the segment model", "in-memory loader returns stored bytes"},
